@@ -49,6 +49,9 @@ def chain_instances(model, tier):
             par = lambda k: "even" if k % 2 == 0 else "odd"
             out.append((("NthRoot", ("NthPower", x, m), n), f"NthRoot[{par(n)}](NthPower[{par(m)}])"))
             out.append((("NthPower", ("NthRoot", x, m), n), f"NthPower[{par(n)}](NthRoot[{par(m)}])"))
+    # variable names that are prefixes of one another
+    v1, v2, v3 = ("Variable", "x"), ("Variable", "xy"), ("Variable", "x1")
+    out.append((("Add", [("Multiply", [v1, v2]), ("NthPower", v3, 2), ("Multiply", [v2, v3])]), "names:prefixes"))
     s = ("Multiply", [x, y])
     out.append((("Add", [s, ("NthPower", s, 2), s]), "dag:shared-product"))
     out.append((("Divide", ("Sine", s), ("Exponential", s, E)), "dag:shared-in-quotient"))
